@@ -5,14 +5,14 @@ META = {
     "functions": ["whole core: Lib/core/{ctx,mod,ps,src,evts,main}.c, poll/{epoll,cmn_linux}.c, fs_noop.c, Lib/structs/*.c, "
                   "Lib/mem/mem.c, Lib/utils/{mem,utils}.c"],
     "stubs": L2_STUBS,
-    "bounds": "scenario catalogue (13 families x variants, listed per job), <= 3 modules, <= 3 messages; the claim is 'no "
+    "bounds": "scenario catalogue (15 families x variants, listed per job), <= 3 modules, <= 3 messages; the claim is 'no "
               "memory-safety violation and no leak in these scenario families for all values of the free variables'",
     "outside": "programs outside the catalogue, parallel task threads, allocation failure",
     "assumptions": ["handles passed to the API are live references owned by the caller"],
 }
 SCENS = {1: ("selfdereg", [0]), 2: ("selfstop", [0]), 3: ("unsub-inflight", [0, 1]), 4: ("retain-evt", [0, 1, 2]),
          5: ("zombie", [0]), 6: ("sender-gone", [0]), 7: ("stash-stop", [0, 1]), 8: ("replace", [0]), 9: ("burst", [0]),
-         10: ("ctx-autorelease-in-cb", [0]), 11: ("task-after-stop", [0, 1]), 12: ("unstash-selfdereg", [0]), 13: ("paused-mailbox", [0, 1, 2])}
+         10: ("ctx-autorelease-in-cb", [0]), 11: ("task-after-stop", [0, 1]), 12: ("unstash-selfdereg", [0]), 13: ("paused-mailbox", [0, 1, 2]), 14: ("resub-dup", [0, 1]), 15: ("sysmsg-sender-gone", [0])}
 KF = {(11, 0): ["task-outlives-source"], (11, 1): ["task-outlives-source"]}
 
 
